@@ -83,19 +83,52 @@ theorem ready_no_deadlock {s : St} (hreach : Reach .fixed init s) (hrun : s.run 
     ∃ t, IntPath .fixed ok s t ∧ t.cons.length = s.cons.length ∧
       (∀ b, s.init = some b → t.init = some b) ∧
       (s.init = none → t.init = none ∨ t.init = some ok) ∧
-      ∀ c ∈ t.cons, (∃ y, c = .yDone y) ∨ ∃ r, c = .gDone r ∧ t.init = some r.isSome := by
+      (∀ c ∈ t.cons, (∃ y, c = .yDone y) ∨ ∃ r, c = .gDone r ∧ t.init = some r.isSome) ∧
+      -- call by call: a waiting `Ready` has returned nil, a returned one is unchanged, and every
+      -- `GetX509SVID` call, wherever it was, has returned
+      (∀ i : Nat, s.cons[i]? = some ConsPc.yWait → t.cons[i]? = some (ConsPc.yDone true)) ∧
+      (∀ (i : Nat) (y : Bool), s.cons[i]? = some (ConsPc.yDone y) → t.cons[i]? = some (ConsPc.yDone y)) ∧
+      (∀ (i : Nat) (a : ConsPc), s.cons[i]? = some a → a.isGet = true →
+        ∃ r : Option Nat, t.cons[i]? = some (ConsPc.gDone r) ∧ t.init = some r.isSome) := by
   obtain ⟨hb, hf⟩ := fixedInv_reach baseInv_init fixedInv_init hreach
   obtain ⟨t, hp, hall⟩ := progress_fixed ok (total s) s (Nat.le_refl _) hb hf hrun
   obtain ⟨_, hft⟩ := fixedInv_reach baseInv_init fixedInv_init (reach_of_intPath hreach hp)
-  refine ⟨t, hp, length_path hp, (init_path hb hp).1, (init_path hb hp).2, ?_⟩
-  intro c hc
-  have hret : c.returned = true := by
+  have hret : ∀ c ∈ t.cons, c.returned = true := by
     simp only [St.allReturned, List.all_eq_true] at hall
-    exact hall c hc
-  cases c with
-  | yDone y => exact Or.inl ⟨y, rfl⟩
-  | gDone r => exact Or.inr ⟨r, rfl, hft.res _ hc r (Or.inr rfl)⟩
-  | _ => simp [ConsPc.returned] at hret
+    exact hall
+  have hretI : ∀ (i : Nat) (b : ConsPc), t.cons[i]? = some b → b.returned = true :=
+    fun i b hb => hret b (List.mem_of_getElem? hb)
+  refine ⟨t, hp, length_path hp, (init_path hb hp).1, (init_path hb hp).2, ?_, ?_, ?_, ?_⟩
+  · intro c hc
+    have := hret c hc
+    cases c with
+    | yDone y => exact Or.inl ⟨y, rfl⟩
+    | gDone r => exact Or.inr ⟨r, rfl, hft.res _ hc r (Or.inr rfl)⟩
+    | _ => simp [ConsPc.returned] at this
+  · intro i hi
+    obtain ⟨b, hbt, hev⟩ := evolves_path hp i _ hi
+    have hr := hretI i b hbt
+    rcases hev with h | ⟨_, h⟩ | ⟨h, _⟩
+    · subst h; simp [ConsPc.returned] at hr
+    · subst h; exact hbt
+    · simp [ConsPc.isGet] at h
+  · intro i y hi
+    obtain ⟨b, hbt, hev⟩ := evolves_path hp i _ hi
+    rcases hev with h | ⟨h, _⟩ | ⟨h, _⟩
+    · subst h; exact hbt
+    · cases h
+    · simp [ConsPc.isGet] at h
+  · intro i a hi hg
+    obtain ⟨b, hbt, hev⟩ := evolves_path hp i _ hi
+    have hr := hretI i b hbt
+    have hgb : b.isGet = true := by
+      rcases hev with h | ⟨h, _⟩ | ⟨_, h⟩
+      · subst h; exact hg
+      · subst h; simp [ConsPc.isGet] at hg
+      · exact h
+    cases b with
+    | gDone r => exact ⟨r, hbt, hft.res _ (List.mem_of_getElem? hbt) r (Or.inr rfl)⟩
+    | _ => simp_all [ConsPc.returned, ConsPc.isGet]
 
 /-- Non-vacuity: a consumer asked for the SVID before `Run` was called, `Run` is inside `Lock()`. -/
 example : ∃ s, Reach .fixed init s ∧ s.run = .pendLock ∧ s.cons = [.gCall, .yWait] :=
